@@ -1,5 +1,7 @@
 pub type Coin = BigNum;
-opaque_types!(PlutusScriptSourceEnum, DatumSourceEnum, PlutusData, ExUnits, NativeScriptSourceEnum, Certificate, ScriptHash, Voter, VotesOfVoter, AssetName, Int);
+opaque_types!(PlutusScriptSourceEnum, DatumSourceEnum, PlutusData, ExUnits, NativeScriptSourceEnum, Certificate, ScriptHash, VotesOfVoter, AssetName, Int);
+#[verifier::external_body] pub struct Ed25519KeyHash { _p: core::marker::PhantomData<u8> }
+impl Ed25519KeyHash { pub uninterp spec fn raw(&self) -> Seq<u8>; #[verifier::external_body] pub fn to_bytes(&self) -> (r: RawHash) ensures r@ == self.raw() { unimplemented!() } }
 pub type PolicyID = ScriptHash;
 clone_eq!(PlutusScriptSourceEnum, DatumSourceEnum, PlutusData, ExUnits, RedeemerTag);
 impl vstd::std_specs::convert::FromSpecImpl<usize> for BigNum {
@@ -74,3 +76,11 @@ impl vstd::std_specs::convert::FromSpecImpl<u64> for BigNum {
     open spec fn from_spec(v: u64) -> BigNum { BigNum(v) }
 }
 impl From<u64> for BigNum { #[verifier::external_body] fn from(x: u64) -> (r: BigNum) { unimplemented!() } }
+
+// ---- proposals: a voting proposal as far as the proposal builder looks at it - whether its governance action carries a policy (guardrails script) hash
+#[verifier::external_body] pub struct VotingProposal { _p: core::marker::PhantomData<u8> }
+impl Clone for VotingProposal { #[verifier::external_body] fn clone(&self) -> (r: Self) ensures r == *self { unimplemented!() } }
+impl VotingProposal {
+    pub uninterp spec fn scripted(&self) -> bool;
+    #[verifier::external_body] pub fn has_script_hash(&self) -> (r: bool) ensures r == self.scripted() { unimplemented!() }
+}
